@@ -101,11 +101,19 @@ def ensure_deps():
 
 
 def load_known():
+    """known_findings.json (committed, never written at run time)."""
+    out = []
     path = os.path.join(VERIF, "known_findings.json")
-    if not os.path.exists(path):
-        return []
-    with open(path) as f:
-        return json.load(f).get("findings", [])
+    if os.path.exists(path):
+        with open(path) as f:
+            out += json.load(f).get("findings", [])
+    ddir = os.path.join(VERIF, "known_findings.d")
+    if os.path.isdir(ddir):
+        for name in sorted(os.listdir(ddir)):
+            if name.endswith(".json"):
+                with open(os.path.join(ddir, name)) as f:
+                    out += json.load(f).get("findings", [])
+    return out
 
 
 def run_property(prop, tier, base_seed, jobs=None, n_cases=None, only_seeds=None, quiet=False):
